@@ -427,6 +427,16 @@ where
             }
         }
     }
+    // negative step sizes: a backward-in-time trajectory, integrated and Metropolis-tested like any other
+    for (ti, (_, dims)) in tg.iter().enumerate().take(2) {
+        for &eps in &[-0.1, -0.9] {
+            for &l in &[1usize, 3] {
+                for &n in &[1usize, 2] {
+                    cfgs.push(Cfg { target: ti, d: dims[0], eps, l, n });
+                }
+            }
+        }
+    }
     let f = |x: f64| T::from(x).unwrap();
     cfgs.par_iter().for_each(|c| {
         let target = tg[c.target].0.clone();
@@ -624,7 +634,7 @@ where
 }
 
 pub fn run(ctx: &Ctx) {
-    ctx.rule("E1: the draws of the real HMC::step (momenta per coordinate from {-2,-0.5,0,0.5,2}: full product for n*D <= 3 (4), else <= 2 (1) deviating coordinates; acceptance draws per row from {1e-30, one ulp below / at / above exp(H-H') of the implementation, 1-ulp}) are injected through taps; grid targets {DiffableGaussian2D, Rosenbrock2D, RosenbrockND(3), GaussND(matmul; 3, 8, 16), Student-t(nu=2), quartic} x eps {1e-3,0.1,0.9,2.5,1e3} x L {0,1,2,3,8,64} x n_chains {1,2,3,32} x backends {NdArray<f32>, NdArray<f64>}; oracles: (i) decision exact on the recorded operands, (ii) proposal/momentum/energy vs f64 velocity-Verlet, (iii) row independence, (iv) reversibility, (v) all {accept,reject}^3 histories. states = distinct (config, momentum) cases; transitions = real step() calls");
+    ctx.rule("E1: the draws of the real HMC::step (momenta per coordinate from {-2,-0.5,0,0.5,2}: full product for n*D <= 3 (4), else <= 2 (1) deviating coordinates; acceptance draws per row from {1e-30, one ulp below / at / above exp(H-H') of the implementation, 1-ulp}) are injected through taps; grid targets {DiffableGaussian2D, Rosenbrock2D, RosenbrockND(3), GaussND(matmul; 3, 8, 16), Student-t(nu=2), quartic} x eps {1e-3,0.1,0.9,2.5,1e3, and -0.1,-0.9 on two targets} x L {0,1,2,3,8,64} x n_chains {1,2,3,32} x backends {NdArray<f32>, NdArray<f64>}; oracles: (i) decision exact on the recorded operands, (ii) proposal/momentum/energy vs f64 velocity-Verlet, (iii) row independence, (iv) reversibility, (v) all {accept,reject}^3 histories. states = distinct (config, momentum) cases; transitions = real step() calls");
     let only = std::env::var("MC_C02_BACKEND").unwrap_or_default();
     if only != "f64" {
         run_backend::<f32, BF32>(ctx, "f32 / NdArray<f32>", true);
